@@ -240,7 +240,7 @@ def run_flow_case(c):
                 first = None
             model.paused = True
             # ---- what the oracles produced, recomputed from the recorded flow outputs with the real rescaling ----
-            batches, keymap, dup = [], {}, False
+            batches, keymap, dup, gid0 = [], {}, False, 0
             for bi, (xp, lq) in enumerate(calls):
                 xs = numpy_array_to_live_points(xp.astype(float), p.prime_parameters)
                 with np.errstate(all="ignore"):
@@ -250,12 +250,13 @@ def run_flow_case(c):
                 lj = np.broadcast_to(np.asarray(lj, dtype=float), lq.shape)
                 cs = []
                 for i in range(len(lq)):
-                    gid = bi * c["drawsize"] + i
+                    gid = gid0 + i
                     k = keys_of(x[i:i + 1])[0]
                     if k in keymap:
                         dup = True
                     keymap[k] = gid
                     cs.append([gid, fx(lq[i]), fx(lj[i]), bool(inb[i]), fx(lp[i])])
+                gid0 += len(lq)
                 inloop = [u for (t, ln, u) in spy.calls if t == bi and lo_hi[0] <= ln <= lo_hi[1]]
                 batches.append({"cands": cs, "attempt": bool(inloop),
                                 "us": [fx(np.log(v)) for v in inloop[-1]] if inloop else []})
